@@ -225,7 +225,9 @@ def seq_map(it, xs, e, g, fr):
     finally:
         del ctx.pc[npc:]
         ctx.solver.pop()
-    if is_bytes(val):
+    if isinstance(val, VHex):
+        out_elem, out_sort, elen = "hex", LBytesS, None
+    elif is_bytes(val):
         out_elem, out_sort, elen = "bytes", LBytesS, to_vbytes(val).klen()
     elif is_int(val):
         out_elem, out_sort, elen = "int", BytesS, None
@@ -237,6 +239,8 @@ def seq_map(it, xs, e, g, fr):
 
     def elt_at(itp, args, i):
         v = elt_val(itp, args[0], list(args[1:]), i)
+        if out_elem == "hex":
+            return to_vbytes(v.b).z
         return to_vbytes(v).z if out_elem == "bytes" else zi(v)
 
     _MAPS[name] = (elt_at, it.repo, src_kind)
